@@ -96,12 +96,12 @@ def parse_phase(rec):
     rec = rec.strip()
     if rec == "-":
         return None
-    m = re.fullmatch(r"N=(\d+) crash=(-?\d+) calls=(\S*) trace=(\S*)", rec)
+    m = re.fullmatch(r"N=(\d+) crash=(-?\d+) at=(\S+) calls=(\S*) trace=(\S*)", rec)
     calls = []
-    for c in m.group(3).split(";"):
+    for c in m.group(4).split(";"):
         f = c.split(":")
         calls.append({"kind": f[0], "arg": int(f[1]), "start": int(f[2]), "end": int(f[3]), "res": ":".join(f[4:])})
-    return {"n": int(m.group(1)), "crash": int(m.group(2)), "calls": calls, "trace": expand(m.group(4))}
+    return {"n": int(m.group(1)), "crash": int(m.group(2)), "at": m.group(3), "calls": calls, "trace": expand(m.group(5))}
 
 
 def parse_line(l):
@@ -224,6 +224,10 @@ def events_of(case, defs):
             else:
                 o = "OClose"
             x = ph["crash"]
+            if 0 <= x < c["start"]:
+                # the crash fell between two calls (operations between calls are background jobs of the store): the
+                # machine crashed while idle; a call the executor still started afterwards left nothing durable
+                break
             if x < 0 or c["end"] <= x:
                 gs, _, _ = group(toks, names, len(ev), None)
                 ev.append("XOp %s %s %s" % (o, res_term(c["res"]), defs.tr(gs)))
@@ -244,6 +248,8 @@ def events_of(case, defs):
         if ph["crash"] >= 0 and not crashed_in_call:
             ev.append("XIdle")
             in_call, last_before, last_after = None, last, last
+        if (ph["crash"] >= 0) and (ph["at"].startswith("call:") != crashed_in_call):
+            raise RuntimeError("executor and checker place the crash differently: %s vs in_call=%s in %s" % (ph["at"], in_call, case["raw"][:400]))
     gs, _, _ = group(case["ptrace"], names, len(ev), None)
     ev.append("XOp OOpen %s %s" % ("(ROk %d)" % case["idx"] if case["open"] == "ok" else "RPanic", defs.tr(gs)))
     exp = "[" + "; ".join("(%d, %s)" % (KCODE[k], copt(vcode(case["look"].get(k, "?")))) for k in KEYS) + "]"
@@ -312,11 +318,13 @@ def run(ck):
             seen.add(w)
             workloads.append(("prng-%d" % (len(workloads) - len(FIXED) + 1), w))
     wl = dict(workloads)
+    ph2of = {}
     lines, corpus_ids = [], []
     if ck.replay:
         rj = json.load(open(ck.replay))
         f = rj["executor_input_line"].split()
         wl[f[0]] = f[3]
+        ph2of[f[0]] = f[4]
         workloads, NRAND = [], 0
         lines.append(rj["executor_input_line"])
     # old witnesses first
@@ -325,6 +333,7 @@ def run(ck):
         for n, c in enumerate(cj.get("cases", [])):
             wid = "corpus-%s-%d" % (os.path.basename(fn)[:-5], n)
             wl[wid] = c["phase1"]
+            ph2of[wid] = c.get("phase2", "-")
             lines.append("%s %s %s %s %s" % (wid, c["mode"], LOGSTR, c["phase1"], c.get("phase2", "-")))
             corpus_ids.append("%s %s %s" % (wid, c["phase1"], c["mode"]))
     for wid, w in workloads:
@@ -353,9 +362,9 @@ def run(ck):
         mode = ("s:%d" % case["k1"]) if case["k2"] is None else ("d:%d:%d" % (case["k1"], case["k2"]))
         ph1 = wl.get(wid, "?")
         rp = {"kind": "monitor:" + kind, "workload": wid, "phase1_calls": ph1,
-              "phase2_calls": PHASE2 if case["k2"] is not None else None,
+              "phase2_calls": ph2of.get(wid, PHASE2) if case["k2"] is not None else None,
               "crash_at_fs_operation_index": case["k1"], "second_crash_at_fs_operation_index": case["k2"],
-              "executor_input_line": "%s %s %s %s %s" % (wid, mode, LOGSTR, ph1, PHASE2 if case["k2"] is not None else "-"),
+              "executor_input_line": "%s %s %s %s %s" % (wid, mode, LOGSTR, ph1, ph2of.get(wid, PHASE2) if case["k2"] is not None else "-"),
               "observed": case["raw"][:6000]}
         for n, ph in enumerate(case["ph"]):
             if ph is not None and 0 <= ph["crash"] < len(ph["trace"]):
@@ -426,12 +435,15 @@ def run(ck):
         return
     hdr = "From Drummer.Model Require Import Base CrashFS DiskKVModel DiskKVRun.\n"
 
-    def evaluate(sel, chk, prefix):
+    def evaluate(its, sel, chk, prefix):
+        """indexes (into its) of the selected cases on which model and implementation disagree"""
+        if not sel:
+            return []
         nsh = max(1, min(16, len(sel) // 150))
         shards = [sel[i::nsh] for i in range(nsh)]
         jobs = []
         for si, shd in enumerate(shards):
-            body = ";\n".join("xcase %s [%s] %s" % (cbool(chk), "; ".join(items[i][1]["events"]), items[i][1]["exp"]) for i in shd)
+            body = ";\n".join("xcase %s [%s] %s" % (cbool(chk), "; ".join(its[i][1]["events"]), its[i][1]["exp"]) for i in shd)
             used = set(re.findall(r"\bt\d+\b", body))
             jobs.append(("%s%d" % (prefix, si), hdr + defs.text(used) + "Definition cases : list bool := [\n" + body +
                          "\n].\nDefinition M := Eval vm_compute in false_ix cases.\nPrint M.\n"))
@@ -445,22 +457,67 @@ def run(ck):
             bad.extend(shards[si][j] for j in b)
         return sorted(bad)
 
-    mism = evaluate(list(range(len(items))), True, "c16a")
+    mism = evaluate(items, list(range(len(items))), True, "c16a")
     if mism is None:
         return
     ck.cov["traces_validated_against_impl"] = len(items)
-    if mism:
-        outcome_bad = evaluate(mism, False, "c16b")
-        if outcome_bad is None:
-            return
-        ob = set(outcome_bad)
-        ck.cov["model_disagreements"] = {"total": len(mism), "outcome": len(ob), "operation_trace_only": len(mism) - len(ob)}
-        if not ck.violations:
-            i = mism[0]
-            case, e, ok = items[i]
-            what = "outcome after reopen" if i in ob else "node-directory operation trace (order/kind of FS operations of a call)"
-            ck.violation("model and implementation disagree on %d of %d crash cases (%s) but no property monitor failed; first: workload %s (%s) k1=%s k2=%s"
-                         % (len(mism), len(items), what, case["wid"], wl.get(case["wid"], "?"), case["k1"], case["k2"]),
-                         {"kind": "correspondence", "engine": "crash", "n_disagreements": len(mism), "n_outcome": len(ob),
-                          "first_case_model_events": e["events"], "first_case_expected_lookups": e["exp"],
-                          "first_case_observed": case["raw"][:6000], "theorems": ck.cov.get("theorems")}, found_input=False)
+    ck.cov["jitter_cases"] = []
+    if not mism:
+        return
+    if ck.violations:
+        ck.cov["model_disagreements"] = {"total": len(mism), "note": "a property monitor failed; not analysed further"}
+        return
+    # A disagreement without a failing monitor is reported only if it reproduces: the single case is re-executed
+    # RERUN times (the number and position of pebble's background operations vary from run to run; every line is
+    # self-contained, but a line is only evidence of a broken correspondence if the same input disagrees again).
+    RERUN, LIMIT = 3, 60
+    redo, rlines = mism[:LIMIT], []
+    for n, i in enumerate(redo):
+        case = items[i][0]
+        mode = ("s:%d" % case["k1"]) if case["k2"] is None else ("d:%d:%d" % (case["k1"], case["k2"]))
+        for r in range(RERUN):
+            wid = "rerun-%d-%d" % (n, r)
+            wl[wid] = wl.get(case["wid"], "?")
+            ph2of[wid] = ph2of.get(case["wid"], PHASE2)
+            rlines.append("%s %s %s %s %s" % (wid, mode, LOGSTR, wl[wid], ph2of[wid] if case["k2"] is not None else "-"))
+    rres = run_go(ck, binp, rlines, "c16r", 1)
+    if rres is None:
+        return
+    ritems = []
+    for l in rres:
+        c = parse_line(l)
+        ritems.append((c, events_of(c, defs), True))
+    rbad = evaluate(ritems, list(range(len(ritems))), True, "c16r")
+    if rbad is None:
+        return
+    again = {}
+    for j in rbad:
+        n = int(ritems[j][0]["wid"].split("-")[1])
+        again[n] = again.get(n, 0) + 1
+    confirmed = [i for n, i in enumerate(redo) if again.get(n, 0) == RERUN] + mism[LIMIT:]
+    for n, i in enumerate(redo):
+        if again.get(n, 0) < RERUN:
+            case = items[i][0]
+            ck.cov["jitter_cases"].append({"workload": case["wid"], "calls": wl.get(case["wid"], "?"), "k1": case["k1"], "k2": case["k2"],
+                                           "reruns_disagreeing": "%d/%d" % (again.get(n, 0), RERUN),
+                                           "model_events": items[i][1]["events"], "observed": case["raw"][:1500]})
+    ck.cov["model_disagreements"] = {"first_pass": len(mism), "re_executed": len(redo), "reproduced": len(confirmed)}
+    if not confirmed:
+        return
+    outcome_bad = evaluate(items, confirmed, False, "c16b")
+    if outcome_bad is None:
+        return
+    ob = set(outcome_bad)
+    ck.cov["model_disagreements"].update({"outcome": len(ob), "operation_trace_only": len(confirmed) - len(ob)})
+    i = confirmed[0]
+    case, e, ok = items[i]
+    what = "outcome after reopen" if i in ob else "node-directory operation trace (order/kind of FS operations of a call)"
+    ck.violation("model and implementation disagree on %d of %d crash cases (%s), reproduced in %d of %d re-executions each, but no property monitor "
+                 "failed; first: workload %s (%s) k1=%s k2=%s" % (len(confirmed), len(items), what, RERUN, RERUN, case["wid"], wl.get(case["wid"], "?"),
+                                                                  case["k1"], case["k2"]),
+                 {"kind": "correspondence", "engine": "crash", "n_disagreements": len(confirmed), "n_outcome": len(ob),
+                  "first_case_model_events": e["events"], "first_case_expected_lookups": e["exp"],
+                  "first_case_observed": case["raw"][:6000], "theorems": ck.cov.get("theorems"),
+                  "executor_input_line": "%s %s %s %s %s" % (
+                      case["wid"], ("s:%d" % case["k1"]) if case["k2"] is None else ("d:%d:%d" % (case["k1"], case["k2"])), LOGSTR,
+                      wl.get(case["wid"], "?"), ph2of.get(case["wid"], PHASE2) if case["k2"] is not None else "-")}, found_input=False)
